@@ -8,7 +8,7 @@
    into both counters after its loop: true is the code as it stands, false the code with
    fixes/C16-cancel-inflight-no-zeroing.diff; the theorems that do not fix z hold for both. *)
 From Coq Require Import ZArith List Bool Arith Permutation.
-From GV Require Import C16.Model C16.Proofs.
+From GV Require Import C16.Model C16.Proofs C16.Extra.
 Import ListNotations.
 Open Scope Z_scope.
 
@@ -29,6 +29,21 @@ Theorem C16_complete_once : forall z mx s, reach z mx s ->
         (o_calls ob' <> o_calls ob -> is_turn_op o = true /\ o_calls ob' = S (o_calls ob))) /\
   (turn s = TIdle -> table s = [] -> forall r ob, get (objs s) r = Some ob -> o_completed ob = true).
 Proof. exact complete_once. Qed.
+
+(* One completion, start to end: a response envelope (reply, error reply, timeout or cancellation) at the
+   head of the mailbox for a request that is still in flight completes it with exactly that outcome,
+   removes it from requestStates, decrements the in-flight counter, runs the registered continuation
+   once; a later envelope for the same request changes nothing. *)
+Theorem C16_response_completes : forall z mx s r k rest ob,
+  reach z mx s -> turn s = TIdle -> mbox s = MResp r k :: rest ->
+  In r (table s) -> get (objs s) r = Some ob -> o_completed ob = false ->
+  let s' := step z (step z s ODispatch) OFinish in
+  exists ob', get (objs s') r = Some ob' /\
+    o_completed ob' = true /\ o_outcome ob' = Some k /\ o_calls ob' = (if o_cb ob then 1%nat else O) /\
+    ~ In r (table s') /\ inflight s' = inflight s - 1 /\ turn s' = TIdle /\
+    (forall k2, mbox s' = MResp r k2 :: tl (mbox s') ->
+       objs (step z (step z s' ODispatch) OFinish) = objs s' /\ table (step z (step z s' ODispatch) OFinish) = table s').
+Proof. exact response_completes. Qed.
 
 (* Counters.  The literal clause (inFlight = |requestStates|, blocking = number of stash-mode states,
    limit respected, in every reachable state) is false for the code as it is: *)
@@ -113,6 +128,7 @@ Theorem C16_stash_order_partial : forall z mx s, reach z mx s ->
 Proof. exact stash_order_partial. Qed.
 
 Print Assumptions C16_complete_once.
+Print Assumptions C16_response_completes.
 Print Assumptions C16_counters_exact_refuted.
 Print Assumptions C16_inflight_limit_refuted.
 Print Assumptions C16_counters_exact_partial.
